@@ -45,6 +45,7 @@ func main() {
 	writeBaseFlag := flag.Bool("write-baseline", false, "rewrite the baseline of this property from this run")
 	seed := flag.Int("seed", 0, "seed")
 	cpuprof := flag.String("cpuprofile", "", "write a CPU profile here")
+	termRoots := flag.String("term-roots", "", "C13: termination accounting for everything reachable from these functions")
 	with := flag.String("with", "", "comma-separated properties whose contracts this property depends on: their obligations are generated and reported under -prop")
 	flag.Parse()
 	if *cpuprof != "" {
@@ -262,6 +263,41 @@ func main() {
 				ctxOf[o] = r.Ctx
 			}
 			all = append(all, o)
+		}
+	}
+	if *termRoots != "" {
+		r, need := v.termCheck(strings.Split(*termRoots, ","))
+		results = append(results, r)
+		for _, o := range r.Obls {
+			ctxOf[o] = r.Ctx
+			all = append(all, o)
+		}
+		// the measures themselves: the `decreases` obligations of the functions that carry them (their loop invariants are
+		// discharged by the check of the property those functions belong to)
+		done := map[string]bool{}
+		for _, fr := range results {
+			done[fr.Unit] = true
+		}
+		for _, cu := range need {
+			if done[v.unitName(cu)] {
+				continue
+			}
+			con := v.contractOf(cu)
+			if con == nil || con.Trusted {
+				continue
+			}
+			v.curProp = *prop
+			v.curProps = append(append([]string(nil), props...), con.Props...)
+			fr := v.verifyFunc(cu, con)
+			kept := &FuncResult{Unit: fr.Unit, Contract: fr.Contract, Ctx: fr.Ctx, Err: fr.Err, Loops: fr.Loops, Trusted: fr.Trusted, Notes: append(fr.Notes, "only the `decreases` obligations of this function are part of C13; its invariants are discharged under "+strings.Join(con.Props, ", "))}
+			for _, o := range fr.Obls {
+				if o.Kind == "decreases" {
+					kept.Obls = append(kept.Obls, o)
+					ctxOf[o] = fr.Ctx
+					all = append(all, o)
+				}
+			}
+			results = append(results, kept)
 		}
 	}
 	if len(renderObls) > 0 {
